@@ -763,10 +763,11 @@ func runC01(c *Ctx) {
 	c.R.Note("rle: %d cases (%d exhaustive, %d boundary, %d structured/extreme)", len(cases), nExh, len(boundaryCases()), len(cases)-nExh-len(boundaryCases()))
 }
 
-// giant: a frame whose encoded size exceeds 4 GiB, so that a segment offset does not fit
-// the 32-bit header field (see RLE/RleProofs.v: the round trip theorem carries the
-// hypothesis "encoded length <= 2^32"). Needs ~25 GB of memory; only run on request
-// (VERIF_RLE_GIANT=1). Implementation-only oracle.
+// giant: a frame whose encoded size exceeds 4 GiB, so that the 12th segment would start
+// beyond the 32-bit offset range (finding F26, fixed in /repo bc7f8bf). Expected now: Encode
+// returns an error (model: rle_encode = Err, theorem C01_encode_err_iff; the 4.8 GB input
+// cannot be piped through the extracted model). If Encode returns a stream it must round
+// trip. Needs ~25 GB of memory; only run on request (VERIF_RLE_GIANT=1).
 func giant(c *Ctx) {
 	g := geo{rows: 20000, cols: 20000, bits: 32, spp: 3, planar: 0}
 	frame := make([]byte, g.flen())
@@ -782,8 +783,12 @@ func giant(c *Ctx) {
 	c.R.Case("rle:giant", true, "rle.giant")
 	c.R.Oracle("rle_roundtrip_giant")
 	ecl, enc := implEncode(g, frame)
+	if ecl == "err" {
+		c.R.Note("rle giant: Encode returned err (segment offset beyond 2^32 refused), as the model's rle_encode does")
+		return
+	}
 	if ecl != "ok" {
-		c.R.Note("rle giant: Encode returned %s", ecl)
+		c.R.Fail("oracle", "rle_roundtrip_giant", "rle:encode-"+ecl+":"+g.class(), "Encode of a >4 GiB frame returned "+ecl, in)
 		return
 	}
 	c.R.Note("rle giant: encoded length %d (2^32 = %d)", len(enc), uint64(1)<<32)
